@@ -157,6 +157,19 @@ Proof.
   exact (conj connect_short_packs (conj subscribe_short_packs (conj unsubscribe_short_packs pack_defined_iff))).
 Qed.
 
+(* "SUBSCRIBE filters and QoS ... equal what the application asked for" for the re-subscription of a
+   RetryClient after a reconnection: what is remembered for a filter is the QoS the application asked
+   LAST for it (nothing if it unsubscribed since), a function of the request history only ... *)
+Theorem C05_resubscribe_is_asked : forall t ops est,
+  est_lookup t (rc_run est ops) = asked t (map fst ops) (est_lookup t est).
+Proof. exact remembered_is_asked. Qed.
+
+(* ... so the SUBSCRIBE requests of Resubscribe (filters, QoS, order, one per packet) are independent of
+   the codes any broker granted (BaseClient.Subscribe overwrites the caller's slice with them) *)
+Theorem C05_resubscribe_independent_of_grants : forall ops1 ops2 est,
+  map fst ops1 = map fst ops2 -> resub_requests (rc_run est ops1) = resub_requests (rc_run est ops2).
+Proof. exact resubscription_independent_of_grants. Qed.
+
 Print Assumptions C05_go_shifts.
 Print Assumptions C05_varint_defined.
 Print Assumptions C05_varint_roundtrip.
@@ -178,3 +191,5 @@ Print Assumptions C05_retry_shape.
 Print Assumptions C05_retry_packets_decode.
 Print Assumptions C05_long_fields_rejected.
 Print Assumptions C05_short_fields_packed.
+Print Assumptions C05_resubscribe_is_asked.
+Print Assumptions C05_resubscribe_independent_of_grants.
